@@ -814,3 +814,29 @@ def expr_node_spans(run, R="SPAN"):
                 bad.append("%s %s: span `%s` leaves out its first operand `%s`" % (f.loc(st["span"]), st["rv"].get("variant"), sp[:90], first[0][:60]))
     run.check(n >= 6 and not bad, R, R + "|expr-node|covers-first-operand", "-", "the span of every composite expression node starts at its first operand or at a token before it (%d node constructions)" % n,
               "%s: a diagnostic or a listing row for this expression would show only its tail" % ("; ".join(bad) or "node constructions not found"))
+
+
+OPERAND_PARSERS = ("asm::parser::directive_addr::parse", "asm::parser::directive_align::parse", "asm::parser::directive_res::parse",
+                   "asm::parser::directive_assert::parse", "asm::parser::directive_const::parse", "asm::parser::symbol::parse")
+
+
+def operand_same_line(run, R="SPAN"):
+    """a directive (or constant) that needs an operand reports a missing one on its own line: its parser tests for the end of the line
+    (Walker::next_linebreak) before it hands over to the expression parser, which otherwise reads on into the following lines"""
+    from rules_sym import option_tests
+    n = 0
+    for name in OPERAND_PARSERS:
+        f = run.prog.fn(name)
+        if f is None:
+            run.violation(R, "%s|operand-same-line|%s" % (R, name), "-", "mechanism not found: %s" % name)
+            continue
+        cs = [(bi, t) for bi, t in f.calls() if re.search(r"expr::parser::parse(_optional)?$", t.get("resolved") or t.get("callee") or "")]
+        if not cs:
+            run.violation(R, "%s|operand-same-line|%s" % (R, name), f.loc(), "mechanism not found: the expression parse in %s" % name)
+            continue
+        n += 1
+        tests = option_tests(f, lambda d: "Walker::next_linebreak(" in d)
+        ok = all(any(f.edge_dominates(sb, none_, bi) for sb, some_, none_ in tests) for bi, t in cs)
+        run.check(ok, R, "%s|operand-same-line|%s" % (R, name), f.loc(cs[0][1]["span"]), "%s looks for the end of the line before parsing its operand" % name,
+                  "%s hands over to the expression parser without looking for the end of the line: with the operand missing, the expression parser reads on and the first error is located on a later line (the next instruction is reported as an unknown symbol), not on the faulty one" % name)
+    run.floor(R, "operand parsers", n, 6)
